@@ -89,8 +89,11 @@ try:
                 return []
             return sorted(int(x) for x in os.listdir(td) if x.isdigit() and os.path.isdir(os.path.join(td, x)))
 
+        CUR = {"b": None}
+
         def check_oracle(dirname, oracles):
             b = (min(oracles) - 1) // B + 1
+            CUR["b"] = b           # the stand-in compiler below is called (in this process) by the real check of this batch
             try:
                 res = real_check(dirname, oracles)
             except BaseException as e:  # noqa: BLE001
@@ -115,8 +118,8 @@ try:
                 return True, "javac 17.0.9"
             src = arguments[-1].split("/*/")[0]
             entries = [json.loads(l) for l in open(MAP)] if os.path.exists(MAP) else []
-            mine = [e for e in entries if e["dir"] == src]
-            b = (min(e["pid"] for e in mine) - 1) // B + 1
+            mine = list({e["pid"]: e for e in entries if e["dir"] == src}.values())      # it "compiles" whatever is on disk below src
+            b = CUR["b"] if CUR["b"] is not None else (min(e["pid"] for e in mine) - 1) // B + 1
             if scenario["crashes"][b - 1]:
                 return False, ("An exception has occurred in the compiler (17.0.9). Please file a bug against the Java compiler.\n"
                                "java.lang.NullPointerException: Cannot invoke \"com.sun.tools.javac.code.Type.getTag()\"\n"
